@@ -2,13 +2,15 @@
 # usage: tools_seedrun.sh <patch.diff> <command ...>
 # Runs a command with VERIF_REPO pointing at a scratch copy of /repo's working
 # tree with the patch applied (static checks only: nothing is built).
-set -e
+set -e  # a patch that does not apply ends the run with exit 3 (see below)
 patch=$1; shift
 tag=$(echo "$patch" | md5sum | cut -c1-8)
 root=/dev/shm/seedrun-$tag
 rm -rf $root $root-cache; mkdir -p $root
 rsync -a --exclude '*.so' --exclude '__pycache__' --exclude 'build' /repo/src /repo/include /repo/setup.py $root/
-patch -s -p1 -d $root < "$patch"
+if ! patch -s -p1 -d $root < "$patch" > /dev/null; then
+  echo "PATCH-DOES-NOT-APPLY $patch"; rm -rf $root $root-cache; exit 3
+fi
 set +e
 VERIF_REPO=$root VERIF_CACHE=$root-cache VERIF_NO_EVIDENCE=1 "$@"
 rc=$?
